@@ -253,6 +253,52 @@ func runC17(rc *RunCtx) {
 		}
 		return true
 	}
+	// verify a signature / hmac with the parameters it was made with, optionally overridden
+	verifySig := func(sg *trSig, input []byte, sig string, override map[string]any) (bool, error) {
+		field := "signature"
+		if sg.hmac {
+			field = "hmac"
+		}
+		data := map[string]any{"input": b64(input), field: sig}
+		for f, v := range sg.params {
+			data[f] = v
+		}
+		if sg.ctx != nil {
+			data["context"] = b64(sg.ctx)
+		}
+		for f, v := range override {
+			if v == nil {
+				delete(data, f)
+			} else {
+				data[f] = v
+			}
+		}
+		resp, err := h.Do("verify", Req{Op: logical.UpdateOperation, Path: "transit/verify/" + sg.key.name, Token: h.Root, Data: data})
+		if err == nil && resp != nil && resp.IsError() {
+			err = resp.Error()
+		}
+		if err != nil {
+			return false, err
+		}
+		v, _ := resp.Data["valid"].(bool)
+		return v, nil
+	}
+	// a signature the current configuration admits verifies over its own input
+	// (false: a violation was raised)
+	checkSig := func(sg *trSig, phase string) bool {
+		field := map[bool]string{true: "hmac", false: "signature"}[sg.hmac]
+		ok, err := verifySig(sg, sg.input, sg.sig, nil)
+		want := sg.version >= sg.key.minDec && sg.version >= sg.key.minAvail
+		if want && (!ok || err != nil) {
+			viol("valid-signature-rejected", map[string]any{"hmac": sg.hmac, "key_type": sg.key.typ, "derived": sg.key.derived}, "%s: %s v%d of %s (%v) over its own input does not verify: %v", phase, field, sg.version, sg.key.name, sg.params, err)
+			return false
+		}
+		if !want && ok {
+			viol("signature-below-min-version-verified", map[string]any{"hmac": sg.hmac}, "%s: %s v%d of %s verifies although min_decryption_version=%d", phase, field, sg.version, sg.key.name, sg.key.minDec)
+			return false
+		}
+		return true
+	}
 	nOps := 8 + tp.Pick(14)
 	if rc.Thorough() {
 		nOps = 8 + tp.Pick(42)
@@ -806,6 +852,38 @@ func runC17(rc *RunCtx) {
 				viol("sign-below-min-encryption-version", map[string]any{"hmac": useHMAC, "key_type": k.typ}, "%s with %s used version %d below min_encryption_version %d", field, k.name, sg.version, k.minEnc)
 				return
 			}
+			if !checkSig(sg, "fresh") {
+				return
+			}
+			// the same request again, for another admissible key version, back to
+			// back (nothing else touches the key in between): both results are
+			// bound to their own version
+			if lo := max(1, k.minEnc, k.minAvail); lo < k.latest && tp.Pick(2) == 0 {
+				ov := lo + tp.Pick(k.latest-lo+1)
+				if ov == sg.version {
+					ov = lo + (ov-lo+1)%(k.latest-lo+1)
+				}
+				data["key_version"] = ov
+				if resp, err, _ := do(Req{Op: logical.UpdateOperation, Path: path, Token: h.Root, Data: data}, 0); err == nil {
+					sg2 := &trSig{key: k, input: input, hmac: useHMAC, params: sg.params, ctx: sg.ctx, sig: fmt.Sprint(resp.Data[field])}
+					sg2.version = ctVersion(sg2.sig)
+					sigs = append(sigs, sg2)
+					note("%s %s %v reqv=%d (back to back) -> v%d", field, k.name, sg.params, ov, sg2.version)
+					if sg2.version != ov {
+						viol("sign-wrong-version", map[string]any{"hmac": useHMAC, "key_type": k.typ}, "%s with %s used version %d, requested %d", field, k.name, sg2.version, ov)
+						return
+					}
+					if !checkSig(sg2, "fresh, second version back to back") {
+						return
+					}
+					parts := strings.SplitN(sg2.sig, ":", 3)
+					if ok, _ := verifySig(sg2, input, fmt.Sprintf("%s:v%d:%s", parts[0], sg.version, parts[2]), nil); ok {
+						viol("tampered-signature-verified", map[string]any{"hmac": useHMAC, "corruption": "version prefix", "key_type": k.typ}, "%s v%d of %s verifies under the prefix v%d", field, sg2.version, k.name, sg.version)
+						return
+					}
+					s.Probe("sign_two_versions_back_to_back")
+				}
+			}
 		case op == 12 && len(sigs) > 0: // verify, genuine and tampered (message, bytes, version, parameters)
 			sg := sigs[tp.Pick(len(sigs))]
 			field := "signature"
@@ -813,43 +891,15 @@ func runC17(rc *RunCtx) {
 				field = "hmac"
 			}
 			verify := func(input []byte, sig string, override map[string]any) (bool, error) {
-				data := map[string]any{"input": b64(input), field: sig}
-				for f, v := range sg.params {
-					data[f] = v
-				}
-				if sg.ctx != nil {
-					data["context"] = b64(sg.ctx)
-				}
-				for f, v := range override {
-					if v == nil {
-						delete(data, f)
-					} else {
-						data[f] = v
-					}
-				}
-				resp, err := h.Do("verify", Req{Op: logical.UpdateOperation, Path: "transit/verify/" + sg.key.name, Token: h.Root, Data: data})
-				if err == nil && resp != nil && resp.IsError() {
-					err = resp.Error()
-				}
-				if err != nil {
-					return false, err
-				}
-				v, _ := resp.Data["valid"].(bool)
-				return v, nil
+				return verifySig(sg, input, sig, override)
 			}
 			vsig := func(corruption string) map[string]any {
 				return map[string]any{"hmac": sg.hmac, "corruption": corruption, "key_type": sg.key.typ}
 			}
-			ok, err := verify(sg.input, sg.sig, nil)
-			want := sg.version >= sg.key.minDec && sg.version >= sg.key.minAvail
-			if want && (!ok || err != nil) {
-				viol("valid-signature-rejected", map[string]any{"hmac": sg.hmac, "key_type": sg.key.typ}, "%s v%d of %s (%v) over its own input does not verify: %v", field, sg.version, sg.key.name, sg.params, err)
+			if !checkSig(sg, "verify") {
 				return
 			}
-			if !want && ok {
-				viol("signature-below-min-version-verified", map[string]any{"hmac": sg.hmac}, "%s v%d of %s verifies although min_decryption_version=%d", field, sg.version, sg.key.name, sg.key.minDec)
-				return
-			}
+			var ok bool
 			ok, _ = verify(append([]byte("x"), sg.input...), sg.sig, nil)
 			s.Faults["wire-corrupt"]++
 			if ok {
